@@ -66,9 +66,12 @@ def plan(tier, seed=0):
     sg = "seedgeo%d" % seed
     if tier != "thorough":
         return ([(g, b, "s0", "full", ALL) for g in q for b in ("I", "B1")] +
-                [(g, "BS", "s0", "lite", ALL) for g in q] + [(sg, "B1", "s0", "lite", ALL)])
+                [(g, "BS", "s0", "lite", ALL) for g in q] + [(sg, "B1", "s0", "lite", ALL)] +
+                # a far base: the property admits condition numbers up to 1e4; only there do they exceed 1e3
+                [(g, "BF", "s0", "full", splib.FK_SUBGRID) for g in q if g.startswith("r0.2-")])
     allg = [g.gid for g in splib.family()]
     return ([(g, b, s, "full", ALL) for g in q + [sg] for b in ("I", "B1", "BS") for s in ("s0", "s0.4")] +
+            [(g, "BF", "s0", "full", splib.FK_SUBGRID) for g in q] +
             [(g, b, "s0", "full", splib.FK_SUBGRID) for g in allg if g not in q for b in ("I", "B1", "BS")] +
             [(g, b, "s0", "lite", ALL) for g in allg for b in ("I", "B1", "BS")])
 
